@@ -78,6 +78,13 @@ Theorem C16_only_the_walk_of_the_run_touches_the_flag :
 Proof. vm_compute. auto. Qed.
 Print Assumptions C16_only_the_walk_of_the_run_touches_the_flag.
 
+(* the constant-ness of a condition is go/types' record of it (RunContext.Types.Types[cond].Value), read by the walker AFTER the
+   rules ran on the IfStmt and on the condition: package ruleguard never writes to a map of a types.Info (a filter that "remembers"
+   a resolved type in Types[e] drops the constant value of e, and the branch stops being dead) *)
+Theorem C16_conditions_stay_as_type_checked : gen_types_info_writes = [].
+Proof. vm_compute. reflexivity. Qed.
+Print Assumptions C16_conditions_stay_as_type_checked.
+
 (* ---- non-vacuity: a well-formed tree with a constant `if`; all three regimes occur ----
    func f() { if C { a(9,10) } else { b(12,13) }; c(14,15) } *)
 Definition dead_ids (c : option bool) : list N :=
